@@ -590,7 +590,7 @@ pub fn delivery_tag_for(salt: u64, ch: u16, seq: u32) -> u64 {
 }
 
 pub fn consumer_tag_for(salt: u64, ch: u16, seq: u32) -> String {
-    format!("ctag-{}-{:08x}", ch, uniq(salt, ch, seq, 5))
+    format!("ctag-{}-{}-{:08x}", ch, seq, uniq(salt, ch, seq, 5))
 }
 
 pub fn full_message_body(salt: u64, ch: u16, seq: u32) -> Vec<u8> {
